@@ -588,7 +588,7 @@ pub fn run(ctx: &Ctx) -> Report {
     let mut r = Report::new("C17", "model_checking");
     let thorough = !ctx.tier.is_quick();
     let names = world_names(thorough);
-    let depth = ctx.pick(2, 3);
+    let depth = ctx.depth(2, 3);
     let total_budget = ctx.pick(60.0, 900.0f64).min(ctx.budget_s * 0.9);
     let mut totals = Counts::new();
     let mut min_depth: Option<usize> = None;
